@@ -21,7 +21,9 @@ REGISTRATION = {
             "exact comparison of outcome class, request counts and the whole store (blob bytes, -partial data, "
             "part records, manifests) after every attempt of thousands of scripted multi-attempt histories, "
             "and the property itself is evaluated on the real store with real SHA-256. The fault alphabet covers "
-            "5xx/404/401 with arbitrary challenges, token failures, transport errors, wrong Content-Length, truncated / "
+            "5xx/404/401 with arbitrary challenges, token failures, a registry that really validates and expires bearer tokens, "
+            "manifest and token answers that are JSON of the wrong shape / type / encoding / size, 10 MB error bodies, "
+            "transport errors, wrong Content-Length, truncated / "
             "reset / stalled / flipped / Range-ignoring / error-page bodies, malformed and looping redirects with the "
             "client's redirect budget, redirects to dead hosts, caller cancellation inside a chunk read, at the last byte of a "
             "layer and at the progress callbacks between PullModel's store effects, two overlapping pulls sharing a layer "
@@ -70,7 +72,7 @@ THEOREMS = [
     "OllamaVerif.C03.empty_digest_panics",
     "OllamaVerif.C03.size_lie_accepted",
 ]
-FILES = ["zz_verif_c03_test.go", "zz_verif_c03net_test.go", "zz_verif_c03gen_test.go", "zz_verif_c03big_test.go", "zz_verif_c03two_test.go"]
+FILES = ["zz_verif_c03_test.go", "zz_verif_c03net_test.go", "zz_verif_c03gen_test.go", "zz_verif_c03big_test.go", "zz_verif_c03two_test.go", "zz_verif_c03json_test.go"]
 OVERLAY = {"server/" + f: "server/" + f for f in FILES}
 
 
